@@ -1114,6 +1114,23 @@ pub fn run(a: &Args) {
             run_workload(&one(pol, 17, vec![], vec![vec![Msg::Durable(mk_write(28, 1, 1)), Msg::Durable(mk_write(29, 2, 1))]], Ending::Crash), &mut out, "corpus:policy:rotation-syncs-the-closed-file");
         }
         next_id = 29;
+        // where the loop takes a Shutdown (top / group-commit wait / drain) depends on the messages before it:
+        // after a full batch the next message is taken at the TOP; a message that appends nothing (tick,
+        // truncation, failed list) sends the loop into the DRAIN phase, a successful write into the WAIT
+        for lead in [Msg::Tick, Msg::Truncate(0), Msg::TruncateListFails(5), Msg::Forget(mk_write(30, 1, 1))] {
+            for max_entries in [1usize, 2, 8] {
+                let mut g = vec![Msg::Durable(mk_write(next_id + 1, 1, 1)), Msg::Durable(mk_write(next_id + 2, 2, 1)), lead.clone(),
+                    Msg::Durable(mk_write(next_id + 3, 3, 1)), Msg::Shutdown, Msg::Durable(mk_write(next_id + 4, 4, 1))];
+                next_id += 4;
+                if max_entries == 8 {
+                    g.remove(0);
+                }
+                let wl = Workload { pol: Pol::Always, cfg_via_json: false, max_wait_us: 200, no_yield: false, max_size: 200, max_entries,
+                    incs: vec![Inc { faults: vec![], dead: None, groups: vec![g, vec![Msg::Durable(mk_write(next_id + 1, 9, 1))]], ending: Ending::End, spawn_list_fails: false }] };
+                next_id += 1;
+                run_workload(&wl, &mut out, "corpus:shutdown-after-a-message-that-appends-nothing");
+            }
+        }
         // more concurrent writers than the mailbox holds (WAL_CHANNEL_CAPACITY) and than one batch may
         // hold (default group_commit_max_entries = 64): senders block and are served in order, the batches
         // are cut at 64
